@@ -18,7 +18,7 @@ CLAIMED = {
  "C15": ("seeded op histories over settables / followers / history adapters with rejected sets, erroring followed getters, clock jumps (both directions) and clock errors, against a small reference model", "5 C15"),
  "C17": ("(a) seeded clone/drop/to_dyn!/borrow histories over all six variants with a drop tracker, from crates with and without alloc/std features, from a #![no_std] crate, and against rrtk built without std; (b) shuttle-controlled thread schedules (seeded random + PCT) over Arc<Mutex>/Arc<RwLock> References: conservation + register linearizability, replayable schedule files", "5 C17"),
  "C16": ("scratch-slot clause: seeded/enumerated arity x absent-pattern plans run natively with poisoned scratch memory (hook) and interpreted by Miri; dangling clause: device-crash fault (drop / move with a live terminal link) in forbid(unsafe_code) programs under Miri; 11 unsound accessors recorded as KNOWN-FINDING; plus negative compile probes (programs without unsafe that must be rejected by the compiler)", "5 C16"),
- "C19": ("differential replay across builds: the same seeded plans (all worlds + value-level API programs; well- and ill-dimensioned) executed by simulators linked against rrtk in eleven build configurations ({std, alloc+libm, alloc+micromath} x {dim_check_release, none}; the default features without / with debug assertions; std together with micromath / with libm; libm together with micromath), canonical traces diffed", "5 C19"),
+ "C19": ("differential replay across builds: the same seeded plans (all worlds + value-level API programs; well- and ill-dimensioned) executed by simulators linked against rrtk in twelve build configurations ({std, alloc+libm, alloc+micromath} x {dim_check_release, none}; the default features without / with debug assertions; std together with micromath / with libm; libm together with micromath; std + dim_check_release without debug assertions), canonical traces diffed", "5 C19"),
 }
 NOT_APPLICABLE = {
  "C01": "pure function of (unit, unit, operator): no state, seam, clock, fault or order for a simulator to control; deterministic simulation with fault injection does not apply (DESIGN.md section 0)",
